@@ -74,11 +74,11 @@ class Spec(PropSpec):
     pid = "C10"
     subsys = "Fs"
     props_file = "C10.v"
-    theorems = ["c10_refines_partial", "c10_sync_is_invisible", "c10_nonvacuous", "c10_time_is_invisible", "c10_hosts_isolated",
+    theorems = ["c10_refines_partial", "c10_refines_renames_partial", "c10_sync_is_invisible", "c10_nonvacuous", "c10_time_is_invisible", "c10_hosts_isolated",
                 "c10_rename_file_refuted", "c10_rename_twice_refuted", "c10_rename_self_refuted",
                 "c10_rename_dir_refuted", "c10_rename_cross_resurrect_refuted", "c10_rename_rmdir_refuted",
                 "c10_rename_again_refuted", "c10_rename_clean_example", "c10_stale_handle_refuted", "c10_recreate_refuted",
-                "c10_root_op_refuted"]
+                "c10_root_op_refuted", "c10_renames_nonvacuous"]
     coq_targets = ["C10.vo"]
     consts = FS_CONSTS
     anchors = FS_ANCHORS
@@ -96,10 +96,16 @@ class Spec(PropSpec):
         "ENOTDIR / EISDIR for a lookup that meets the wrong kind of entry may be reported by the implementation as NotFound",
         "io_uring front-end is covered by C18",
     ]
-    partial_note = ("c10_refines_partial covers every operation except create_dir_all / remove_dir_all and successful renames of "
-                    "regular files (correspondence + oracle only; the oracle asserts the renames of data-synced files that are "
-                    "left alone until the rename is flushed); it holds outside the classes RenameFile, RenameSelf, RenameDir, StaleHandle, Recreate (for the theorem: any creation of a file at a name a file left since the last crash; the known finding Recreate is narrower and the oracle asserts the re-creations outside it), "
-                    "RootOp, each of which has a _refuted theorem with a witness replayed on the crate")
+    partial_note = ("two refinement theorems, both for every history of any length: c10_refines_partial (every operation except "
+                    "create_dir_all / remove_dir_all; hypothesis: no class of FsSafe.v, which excludes every successful rename of a "
+                    "regular file and every creation of a file at a name a file left) and c10_refines_renames_partial (the same "
+                    "alphabet plus renames of regular files within one directory, onto a fresh name or over an existing file; "
+                    "hypothesis: no KNOWN class - the narrow classes of known_findings.txt as gen/fam_fs.py decides them, mirrored "
+                    "by FsKnown.v and cross-checked on every generated history). Still excluded by the second theorem beyond the "
+                    "known classes: create_dir_all / remove_dir_all, renames between two directories, any creation of a file at a "
+                    "name a file left earlier (the known finding Recreate is narrower), a rename onto a name a directory was "
+                    "removed from; those are covered by the model, the correspondence and the oracle only. Every known class has a "
+                    "_refuted theorem with a witness replayed on the crate")
 
     def gen_cases(self, ctx):
         rng = ctx.rng
@@ -141,12 +147,13 @@ class Spec(PropSpec):
                              "hsrun_enc %d%%nat" % n, 1)
         cterm = "hclasses_enc" + term.split("hrun_enc", 1)[1].replace(" %d%%nat [" % (case["cfg"].get("block_size") or 0), " [", 1)
         kterm = term.replace("hrun_enc", "hknown_enc", 1)
-        return "(%s, %s, %s, %s)" % (term, sterm, cterm, kterm), probes, problems
+        ksterm = "ksafe_enc" + term.split("hrun_enc %d%%nat" % n, 1)[1]
+        return "(%s, %s, %s, %s, %s)" % (term, sterm, cterm, kterm, ksterm), probes, problems
 
     def compare(self, case, obs, model, probes):
         if isinstance(model, tuple) and model and model[0] == "error":
             return "model evaluation failed: %s" % str(model[1])[-400:]
-        impl_m, spec_m, klasses, knowns = model
+        impl_m, spec_m, klasses, knowns, coq_ksafe = model
         d = F.compare(case, obs, impl_m, probes)
         if d:
             return d
@@ -158,6 +165,13 @@ class Spec(PropSpec):
         pk = sorted(KNOWN_IDS[k] for k in F.history_features(case, obs) if k in KNOWN_IDS)
         if pk != sorted(set(knowns)):
             return "known classes disagree: python %s, FsKnown.v %s" % (pk, sorted(set(knowns)))
+        # ... and the side condition of c10_refines_renames_partial (FsKnown.ksafe; one host, no crash)
+        if case["cfg"].get("nhosts", 1) == 1 and not any(st[0] == "crash" for st in case["steps"]):
+            feats = F.history_features(case, obs)
+            py_ksafe = F.rename_theorem_side_condition(case, feats)
+            if py_ksafe != bool(coq_ksafe):
+                return "side condition of c10_refines_renames_partial: python says %s, ksafe (Coq) says %s (features %s)" % (
+                    py_ksafe, bool(coq_ksafe), sorted(feats))
         # the Coq reference tree must agree with the independent python tree
         if not any(st[0] == "crash" for st in case["steps"]):
             exp = spec_expected(case)
@@ -183,7 +197,11 @@ class Spec(PropSpec):
         return F.case_signature(case)
 
     def histogram(self, cases):
-        return F.histogram(cases)
+        h = F.histogram(cases)
+        h["with_clean_rename_in_the_rename_theorem"] = sum(
+            1 for c in cases if c["cfg"].get("nhosts", 1) == 1 and "CleanRename" in F.history_features(c)
+            and F.rename_theorem_side_condition(c, F.history_features(c)))
+        return h
 
 
 SPEC = Spec()
